@@ -31,6 +31,8 @@ def add_queries(ws, steps, stdlib):
                 steps.append({"q": "goto", "path": p, "line": line - 1, "col": col})
                 nq += 1
         for (name, line, s, e) in def_positions(text, stdlib):
+            steps.append({"q": "refsx", "path": p, "name": name, "line": line})
+            nq += 1
             for col in range(0, len(lines[line - 1]) + 1):
                 steps.append({"q": "goto_or_def", "path": p, "line": line - 1, "col": col})
                 steps.append({"q": "name_at", "path": p, "line": line - 1, "col": col})
